@@ -251,6 +251,10 @@ func c06Judge(c *core.C, in []byte, label string, forceExpect formats.Format) bo
 			c.Violatef("format-accessors", det, "format %q: Type/Version/Encoding = %q/%q/%q, declaration %q/%q/%q", f, ff.Type(), ff.Version(), ff.Encoding(), typ, ver, enc)
 			return false
 		}
+		if mm := ff.Major() + "." + ff.Minor(); mm != ver {
+			c.Violatef("format-accessors:major-minor", det, "format %q: Major.Minor = %q, the declaration says version %q", f, mm, ver)
+			return false
+		}
 	case "error":
 		c.Cover("decided:must-error")
 		c.DistinctBytes(in)
@@ -371,7 +375,13 @@ func c06Negative(r *rand.Rand, k int) ([]byte, string) {
 	cdxVer := gen.Pick(r, []string{"1.3", "1.4", "1.5"})
 	spdxVer := gen.Pick(r, []string{"SPDX-2.2", "SPDX-2.3"})
 	filler := fmt.Sprintf(`"name":%q,"version":1`, gen.TextSafe(r, 6))
-	switch k % 13 {
+	switch k % 14 {
+	case 13:
+		// a version the library detects but does not read: the declaration must still be reported faithfully
+		if r.Intn(2) == 0 {
+			return []byte(`{"spdxVersion":"SPDX-2.2","SPDXID":"SPDXRef-DOCUMENT",` + filler + `}`), "declared-version-2.2:json"
+		}
+		return []byte("SPDXVersion: SPDX-2.2\nDataLicense: CC0-1.0\nSPDXID: SPDXRef-DOCUMENT\nDocumentName: " + gen.TextPlain(r, 6) + "\n"), "declared-version-2.2:tagvalue"
 	case 12:
 		// valid JSON without a supported declaration whose text quotes a tag-value header on one line
 		hdr := "SPDXVersion: " + spdxVer
